@@ -82,6 +82,11 @@ def handle (line : String) : String :=
       let r := Peaks.run ((0.0 : Float), (0.0 : Float)) (floatPairs vs)
       "ok " ++ showFloats [r.1, r.2]
     | none => "bad-op"
+  | "pinrows" :: rest =>
+    -- pinrows 0/1 ...   (Peaks.pinRowLabels: labels of the rows of a peak pin table)
+    match natList rest with
+    | some bs => "ok " ++ showNats (Peaks.pinRowLabels (bs.map (· != 0)))
+    | none => "bad-op"
   | "dp" :: strict :: rest =>
     -- dp <0|1> cf cg kloss | grids... | z dz z dz ...
     let (coef, r1) := splitBar rest
